@@ -13,6 +13,26 @@ import time
 import traceback
 
 
+def _install_arena_cache():
+  """Speed-up only: see vf/native/arena_cache.c.  Silently skipped when no C compiler is available."""
+  import ctypes
+  import subprocess
+
+  from vf.core import VERIF
+
+  so = os.path.join(VERIF, ".cache", "arena_cache.so")
+  src = os.path.join(VERIF, "vf", "native", "arena_cache.c")
+  try:
+    if not os.path.exists(so) or os.path.getmtime(so) < os.path.getmtime(src):
+      os.makedirs(os.path.dirname(so), exist_ok=True)
+      tmp = f"{so}.{os.getpid()}.tmp"
+      subprocess.run(["gcc", "-O2", "-shared", "-fPIC", "-o", tmp, src], check=True, stdout=subprocess.DEVNULL, stderr=subprocess.DEVNULL)
+      os.replace(tmp, so)
+    ctypes.PyDLL(so).install()
+  except Exception:
+    pass
+
+
 def _setup_warp(mode="release"):
   import warp as wp
 
@@ -36,6 +56,7 @@ def main(argv):
 
   from vf import core
 
+  _install_arena_cache()
   mod = importlib.import_module(f"vf.props.{prop.lower()}")
   warp_mode = getattr(mod, "WARP_MODE", "release")
   if getattr(mod, "SCHED", False):
